@@ -1,7 +1,10 @@
 #!/bin/bash
-# tools/run_all.sh quick|thorough [ids...] : runs the checks one after the other, prints one line per check
+# tools/run_all.sh quick|thorough [ids...] : runs the checks one after the other, one line per check.
+# Under `vp run --with-repo` the checks run against the repository snapshot ($VP_RUN_REPO), so that
+# seeded changes tried in /repo meanwhile do not disturb them.
 T="${1:-quick}"; shift
 cd "$(dirname "$0")/.."
+[ -n "${VP_RUN_REPO:-}" ] && export VERIF_REPO="$VP_RUN_REPO"
 IDS="$@"; [ -z "$IDS" ] && IDS=$(jq -r '.checks[].property_id' MANIFEST.json)
 for id in $IDS; do
   s=$(date +%s)
